@@ -1435,4 +1435,12 @@ theorem restart_mem {s : HSt} (hwf : WF s) (ht : Tracked s) (c : Chan) (e : Elt)
       simp only [Elt.mk.injEq]
       exact ⟨hmt.symm, by rw [g1]; exact ((find_some hm).2).symm⟩
 
+theorem started_some {s : HSt} {c : Chan} {pe : Elt} (h : started s c = some pe) :
+    ∃ q', passStart s.clock true (s.q c) = some (pe, q') := by
+  unfold started at h
+  cases hp : passStart s.clock true (s.q c) with
+  | none => rw [hp] at h; cases h
+  | some r => rw [hp] at h; exact ⟨r.2, by cases h; rfl⟩
+
+
 end Nq.Lemmas.SchedHist
